@@ -33,13 +33,13 @@ LEVEL = "model_checking"
 FUNCTIONS = ["aldy.genotype.genotype (lines 173-220)", "aldy.sam.Sample.__init__ (tail)",
              "aldy.sam.Sample._make_coverage",
              "aldy.coverage.Coverage.{_normalize_coverage,diploid_avg_coverage,"
-             "average_coverage}", "aldy.cn.solve_cn_model", "aldy.sam._in_region",
+             "average_coverage}", "aldy.cn.solve_cn_model", "aldy.cn.estimate_cn (low-depth guard)",
+             "aldy.sam._in_region",
              "aldy.sam.Sample._load_sam (eligibility of a read)"]
 STUBS = ["genotype(): detect_genome, Sample, Profile.load and the three stages are stubs; "
          "Sample(): detect_genome -> 'dump', _load_dump -> empty evidence with symbolic "
          "neutral depth", "lpinterface.model -> z3-capturing backend (deletion part)"]
-OUTSIDE = ["htslib reading (the replay uses a real header-only BAM)",
-           "cn.estimate_cn's own low-depth guard is decided in C03 (wrapper)"]
+OUTSIDE = ["htslib reading (the replay uses a real header-only BAM)"]
 ASSUMPTIONS = ["depths are non-negative reals"]
 
 
@@ -63,6 +63,9 @@ def configs(tier):
     # test on symbolic read / region intervals and the eligibility flags (shared with C06)
     c.append({"kind": "region"})
     c.append({"kind": "eligible"})
+    # the structure stage's own low-depth guard (estimate_cn wrapper, shared with C03)
+    import c03
+    c += [x for x in c03.configs(tier) if x.get("kind") == "wrapper"]
     for g in ["toy", "GA", "GC"] + (["cyp2d6"] if tier == "thorough" else []):
         c.append({"kind": "deletion", "gene": g, "genome": "hg19"})
     return c
@@ -72,6 +75,9 @@ def run_config(cfg):
     if cfg["kind"] in ("region", "eligible"):
         import c06
         return getattr(c06, "run_" + cfg["kind"])(cfg)
+    if cfg["kind"] == "wrapper":
+        import c03
+        return c03.run_wrapper(cfg)
     return globals()["run_" + cfg["kind"]](cfg)
 
 
@@ -437,6 +443,9 @@ def replay_deletion(o):
 
 
 def replay(o):
+    if o["kind"] == "wrapper" or (o["kind"] == "none" and o.get("wrapper")):
+        import c03
+        return c03.replay(o)
     if o["kind"] in ("region", "none"):
         import c06
         return c06.replay(o)
